@@ -1,0 +1,99 @@
+//go:build verif
+// +build verif
+
+package raft
+
+// Verification exports (build tag `verif` only): a read-only projection of a Node's
+// raft state, the not-yet-taken outbox, and a way to reseed the package-level random
+// source so that randomized election timeouts are reproducible.  Nothing in here
+// changes the behaviour of the package.
+
+import (
+	"math/rand"
+	"sort"
+
+	pb "github.com/youzan/ZanRedisDB/raft/raftpb"
+)
+
+// VState is the projection of one raft state machine that the trace specification
+// (verif/spec/ZRaftTrace.tla) compares against.
+type VState struct {
+	ID, Term, Vote, Lead       uint64
+	Commit, Applied            uint64
+	First, Last, LastTerm      uint64
+	Offset                     uint64 // unstable.offset: first index not in stable storage
+	PendingSnap                uint64 // index of the unstable snapshot, 0 if none
+	Role                       string
+	Voters, Learners           []uint64
+	IsLearner, PendingConf     bool
+	Transferee                 uint64
+	Granted, Rejected          []uint64          // votes map of the current (pre-)candidacy
+	Match                      map[uint64]uint64 // Progress.Match per member
+	NeedAdvance                bool
+	ElectionElapsed, RandomTmo int
+}
+
+// VerifState projects the state of nd.  It must be called from the goroutine that
+// drives the node (the same one that calls StepNode/Advance).
+func VerifState(nd Node) VState {
+	n := nd.(*node)
+	r := n.r
+	s := VState{ID: r.id, Term: r.Term, Vote: r.Vote, Lead: r.lead, Commit: r.raftLog.committed,
+		Applied: r.raftLog.applied, First: r.raftLog.firstIndex(), Last: r.raftLog.lastIndex(),
+		LastTerm: r.raftLog.lastTerm(), Offset: r.raftLog.unstable.offset, Role: r.state.String(),
+		Voters: r.nodes(), Learners: r.learnerNodes(), IsLearner: r.isLearner, PendingConf: r.pendingConf,
+		Transferee: r.leadTransferee, Match: map[uint64]uint64{}, NeedAdvance: n.needAdvance,
+		ElectionElapsed: r.electionElapsed, RandomTmo: r.randomizedElectionTimeout}
+	if r.raftLog.unstable.snapshot != nil {
+		s.PendingSnap = r.raftLog.unstable.snapshot.Metadata.Index
+	}
+	for id, v := range r.votes {
+		if v {
+			s.Granted = append(s.Granted, id)
+		} else {
+			s.Rejected = append(s.Rejected, id)
+		}
+	}
+	sort.Sort(uint64Slice(s.Granted))
+	sort.Sort(uint64Slice(s.Rejected))
+	r.forEachProgress(func(id uint64, pr *Progress) { s.Match[id] = pr.Match })
+	return s
+}
+
+// VerifOutbox returns a copy of the messages produced since the last Advance that no
+// Ready has carried yet (raft.msgs).
+func VerifOutbox(nd Node) []pb.Message {
+	n := nd.(*node)
+	out := make([]pb.Message, len(n.r.msgs))
+	copy(out, n.r.msgs)
+	return out
+}
+
+// VerifLogEntries returns the entries of the in-memory log view in [lo, hi] that are
+// available (stable + unstable), for diagnostics of a rejected trace.
+func VerifLogEntries(nd Node, lo, hi uint64) []pb.Entry {
+	n := nd.(*node)
+	l := n.r.raftLog
+	if lo < l.firstIndex() {
+		lo = l.firstIndex()
+	}
+	if hi > l.lastIndex() {
+		hi = l.lastIndex()
+	}
+	if lo > hi {
+		return nil
+	}
+	ents, err := l.slice(lo, hi+1, noLimit)
+	if err != nil {
+		return nil
+	}
+	return ents
+}
+
+// VerifSeed reseeds the package-level random source used for randomized election
+// timeouts, making a single-goroutine run reproducible.
+func VerifSeed(seed int64) {
+	globalRand.mu.Lock()
+	globalRand.rand = rand.New(rand.NewSource(seed))
+	globalRand.mu.Unlock()
+}
